@@ -3,6 +3,7 @@ package sim
 import (
 	"fmt"
 	"net"
+	"time"
 
 	"github.com/pion/turn/v5/verifharness/wire"
 )
@@ -124,6 +125,7 @@ func (m *Model) CrossCheck() {
 			m.Rec.Violate("snap-alloc-missing", "missing", "model says %s holds a live allocation (relay %s, expires %s) but the server has none", a.C.Name, a.Relay, a.Exp.Format("15:04:05"))
 		}
 	}
+	m.lateEvents()
 	live, maybe := m.LiveCount()
 	cnt := w.Srv.AllocationCount()
 	if cnt != total {
@@ -140,4 +142,29 @@ func describeChan(c *MChan, st Tri) string {
 	}
 
 	return fmt.Sprintf("0x%04x->%s %s", c.Num, c.Peer, st)
+}
+
+// lateEvents: once the operator has been told that an allocation is gone, nothing of it is left
+// to report - a permission- or channel-deleted callback that arrives at a later (virtual) time
+// for the same 5-tuple, with no new allocation in between, belongs to state that outlived its
+// allocation. Events are consumed incrementally.
+func (m *Model) lateEvents() {
+	evs := m.W.Events()
+	if m.allocGoneAt == nil {
+		m.allocGoneAt = map[string]time.Time{}
+	}
+	for ; m.evSeen < len(evs); m.evSeen++ {
+		ev := evs[m.evSeen]
+		k := ev.Net + "/" + ev.Src + ">" + ev.Dst
+		switch ev.Kind {
+		case "alloc+":
+			delete(m.allocGoneAt, k)
+		case "alloc-":
+			m.allocGoneAt[k] = ev.At
+		case "perm-", "chan-", "perm+", "chan+":
+			if gone, ok := m.allocGoneAt[k]; ok && ev.At.After(gone) {
+				m.Rec.Violate("event-after-allocation-deleted", ev.Kind, "%s callback for %s (peer %s) at %s, %v after the allocation-deleted callback of that 5-tuple", ev.Kind, k, ev.Peer, ev.At.Format("15:04:05"), ev.At.Sub(gone))
+			}
+		}
+	}
 }
